@@ -20,6 +20,11 @@
 // the result returns the new value, every location where pre- and post-image differ is at, above or
 // below a location Go Locate reports (when Locate agrees with the specification) or a created member.
 //
+// No call can hang the check: a Set with a container value and a descent (the calls that can tie the value into itself,
+// known finding C13-set-self-containing) is made in a child process with a time and memory limit; any other library
+// call that does not return is reported by the watchdog as a violation of class `hang` with its replay, the report is
+// written and the run ends (the call is abandoned, never skipped silently). Replays always go through the child.
+//
 // A violation is reported as a KNOWN finding only if the model reproduces the code and switching off
 // exactly the named deviation flag(s) of the model gives a result the specification accepts.
 package main
@@ -365,9 +370,12 @@ func runImpl(c *Case, genData, must bool) (o outcome) {
 
 // ---- calls that may not return -----------------------------------------------------------------
 
-// Set stores the new value by reference. Where the path visits what it has stored again (two descents: known
+// Set stores the new value by reference. Where the path visits what it has stored again (a location selected or
+// created more than once — two descents, a union that lists a member twice — and a descent that walks into it: known
 // finding C13-repeated-location) a container value can end up inside itself, and Set then walks it for ever
-// (`$....*` with {"z":1}: known finding C13-set-self-containing). Such calls are made in a child process.
+// (`$....*`, `$[0,-1]..b` with {"z":1}: known finding C13-set-self-containing). Every Set with a container value and a
+// descent is therefore made in a child process; it is the known finding only if the specification's lists of selected
+// or created locations have a repeated entry, else a violation of class hang.
 const selfContainingID = "C13-set-self-containing"
 
 // alwaysChild: every call goes through a child process (replay mode: a replayed call may be one that does not return)
@@ -381,13 +389,7 @@ func (c *Case) mayNotReturn() bool {
 	if c.Op != "set" || !(strings.HasPrefix(c.Val, "[") || strings.HasPrefix(c.Val, "{")) {
 		return false
 	}
-	nd := 0
-	for _, f := range c.P {
-		if f.Kind == 'd' {
-			nd++
-		}
-	}
-	return nd >= 2
+	return c.P.has('d')
 }
 
 type childResult struct {
@@ -956,7 +958,25 @@ func (w *worker) run(c *Case) error {
 				}
 			}
 		}
-		if how != "" && !c.mayNotReturn() {
+		if how != "" {
+			// the known finding needs a location that is selected or created more than once
+			a, err := w.ask([]string{strings.Join([]string{"spec", c.Op, c.P.wire(), c.Data, c.arg()}, "\t")})
+			if err != nil {
+				return err
+			}
+			if sp := strings.Fields(a[0]); len(sp) == 3 {
+				for _, list := range sp[:2] {
+					seen := map[string]bool{}
+					for _, l := range strings.Split(list, ";") {
+						if seen[l] {
+							c.repeated = true
+						}
+						seen[l] = true
+					}
+				}
+			}
+		}
+		if how != "" && !(c.mayNotReturn() && c.repeated) {
 			rep.Count("clause.hang", 1)
 			c.finding("violation", "hang", c.name()+" does not return: "+how, map[string]any{"how": how})
 			return nil
